@@ -77,14 +77,14 @@ Definition bump (f : nat -> Z) (h : nat) (d : Z) : nat -> Z :=
   fun x => if Nat.eqb x h then f x + d else f x.
 
 Definition is_fwd (h : nat) (p : pc) : bool :=
-  match p with Forwarding h' => Nat.eqb h' h | _ => false end.
+  match p with Forwarding h' => Nat.eqb h h' | _ => false end.
 Definition is_sel (h : nat) (p : pc) : bool :=
-  match p with Selected (Some h') => Nat.eqb h' h | _ => false end.
+  match p with Selected (Some h') => Nat.eqb h h' | _ => false end.
 Definition in_window (p : pc) : bool :=
   match p with Selected (Some _) => true | _ => false end.
 Definition is_done (p : pc) : bool :=
   match p with Done _ => true | _ => false end.
-Definition for_host (h : nat) (e : nat * Z) : bool := Nat.eqb (fst e) h.
+Definition for_host (h : nat) (e : nat * Z) : bool := Nat.eqb h (fst e).
 
 (* ---- the transition system ---- *)
 Inductive label :=
@@ -213,7 +213,7 @@ Definition sel_sound (c : config) (sel : selector) : Prop :=
 (* ---- observables the property talks about ---- *)
 (* failures recorded for h whose fail_timeout has not yet elapsed *)
 Definition unexpired (c : config) (s : state) (h : nat) : Z :=
-  cnt (fun e => Nat.eqb (fst e) h && (now s <? snd e + c_fail_timeout c)) (flog s).
+  cnt (fun e => Nat.eqb h (fst e) && (now s <? snd e + c_fail_timeout c)) (flog s).
 (* no expiry goroutine is overdue (timers run on time) *)
 Definition prompt (s : state) : Prop := forall e, In e (timers s) -> now s < snd e.
 Definition promptb (s : state) : bool := forallb (fun e => now s <? snd e) (timers s).
